@@ -311,11 +311,11 @@ def timelines():
 
 OPS = {
     "delay": [{"d": 10}, {"d": 25}, {"d": 10, "feedback": True}], "delay_subscription": [{"d": 10}, {"d": 30}], "timestamp": [{}], "time_interval": [{}],
-    "debounce": [{"d": 10}, {"d": 20}, {"d": 15}], "throttle_first": [{"d": 10}, {"d": 20}, {"d": 25}], "sample": [{"d": 20}, {"d": 15}],
+    "debounce": [{"d": 10}, {"d": 20}, {"d": 15}, {"d": 300}], "throttle_first": [{"d": 10}, {"d": 20}, {"d": 25}, {"d": 300}], "sample": [{"d": 20}, {"d": 15}],
     "take_with_time": [{"d": 20}, {"d": 25}, {"d": 0}, {"d": 20, "cold": True}], "skip_with_time": [{"d": 20}, {"d": 25}, {"d": 0}, {"d": 20, "cold": True}],
     "take_until_with_time": [{"d": 20, "abs": False}, {"d": 20, "abs": True}, {"d": 35, "abs": True}, {"d": 20, "abs": False, "cold": True}, {"d": 20, "abs": True, "cold": True}],
     "skip_until_with_time": [{"d": 20, "abs": False}, {"d": 20, "abs": True}, {"d": 35, "abs": True}, {"d": 20, "abs": False, "cold": True}, {"d": 20, "abs": True, "cold": True}],
-    "take_last_with_time": [{"d": 10}, {"d": 20}, {"d": 30}], "skip_last_with_time": [{"d": 10}, {"d": 20}, {"d": 30}],
+    "take_last_with_time": [{"d": 10}, {"d": 20}, {"d": 30}, {"d": 300}], "skip_last_with_time": [{"d": 10}, {"d": 20}, {"d": 30}, {"d": 300}],
     "timeout": [{"d": 15}, {"d": 25}],
     "throttle_with_mapper": [{"d": 10}, {"d": 20}, {"d": 15}], "timeout_with_mapper": [{"d": 15}, {"d": 25}],
     "delay_with_mapper": [{"d": 10}, {"d": 25}, {"d": 10, "sd": 15}, {"d": 25, "sd": 20}, {"d": 10, "sd": 0}],
